@@ -5,6 +5,7 @@ import CookModel.Lemmas.Roundtrip
 import CookModel.Lemmas.RoundtripQty
 import CookModel.Lemmas.RoundtripComp
 import CookModel.Lemmas.RoundtripStep
+import CookModel.Lemmas.RoundtripTimer
 /-
   C01  Printing a recipe as Cooklang and parsing it returns that recipe.
 
@@ -419,5 +420,49 @@ example : segsOK toyCharSpec C01_allExt C01_exStep = true := by decide
 /-- two touching text runs, or `(` right after a component without note, are rejected -/
 example : segsOK toyCharSpec C01_allExt [.text [tk .word ['a']], .text [tk .ws [' ']]] = false := by decide
 example : segsOK toyCharSpec C01_allExt [.cookware C01_exPot {}, .text [tk .openParen ['(']]] = false := by decide
+
+/-! ### timers -/
+
+/-- A timer spelled `~ name { quantity % unit }` — named (`~rest{10%min}`), unnamed (`~{10%min}`)
+    or without quantity (`~rest{}`), multi-word name, any value of the value layer with its
+    unit, blanks after the name and inside the braces as for ingredients (`CPad`) — standing
+    anywhere in a block and not followed by `(`, is parsed by `timer()` to `some (timer …)`: the
+    name text trims to the intended string (no name written: `none`), the quantity is the intended
+    value / lock / unit (`QtyMatches`); the span runs from before `~` to the end of `}`; the cursor
+    is left exactly after the component; the final state differs from the initial one in the
+    cursor only: NO diagnostic is pushed (none of the five timer errors, no misplaced-note
+    warning), no panic.  Holds under every extension set satisfying `ATimer.wf` (decidable; the
+    clauses are necessary, examples below). -/
+theorem C01_timer_roundtrip {α : Type} [Arith α] (c : ATimer) (p : CPad) (s : BP α)
+    (hwf : c.wf s.cs s.ext = true) (hp : p.ok s.cs = true)
+    (A ts rest : List Tok) (hs : Spells ts (spellTimer c p)) (ht : s.toks = A ++ (ts ++ rest))
+    (hc : s.cur = A.length) (hrest : noParenNext rest = true) (hrun : RunAt (baseOff s.toks) s.toks) :
+    ∃ tmr : PTimer α,
+      timerP s = (some (.timer ⟨tmr, ⟨offAt s.toks A.length, offAt s.toks (A.length + ts.length)⟩⟩),
+        { s with cur := A.length + ts.length }) ∧ TimerMatches s.cs c tmr :=
+  rt_timerP c p s hwf hp A ts rest hs ht hc hrest hrun
+
+/-! examples: `~soft boil {= 1 1 / 2 % fl oz }`, `~{10%min}`, `~rest{}`; the clauses of `ATimer.wf` -/
+def C01_exTimer : ATimer :=
+  { name := some [tk .word "soft".toList, tk .ws [' '], tk .word "boil".toList], qty := some C01_exQty }
+def C01_exTimerAnon : ATimer :=
+  { qty := some { val := .num (.int ['1', '0']), unit := some [tk .word "min".toList] } }
+def C01_exTimerRest : ATimer := { name := some [tk .word "rest".toList] }
+def C01_timerExt : Ext := ⟨C01_allExt.bits ||| Gen.EXT_TIMER_REQUIRES_TIME⟩
+
+example : C01_exTimer.wf toyCharSpec C01_timerExt = true ∧ C01_exTimerAnon.wf toyCharSpec C01_timerExt = true ∧
+    C01_exTimerRest.wf toyCharSpec C01_allExt = true := by decide
+/-- necessary clauses: no quantity under TIMER_REQUIRES_TIME, a quantity without unit, neither name
+    nor quantity, a name starting with a modifier character under MODIFIERS, `|` under ALIAS are
+    all errors of the timer parser -/
+example : C01_exTimerRest.wf toyCharSpec C01_timerExt = false := by decide
+example : ({ qty := some { val := .num (.int ['5']) } } : ATimer).wf toyCharSpec ⟨0⟩ = false := by decide
+example : ({} : ATimer).wf toyCharSpec ⟨0⟩ = false := by decide
+example : ({ name := some [tk .minus ['-'], tk .word ['x']] } : ATimer).wf toyCharSpec C01_allExt = false := by decide
+example : ({ name := some [tk .word ['a'], tk .or ['|'], tk .word ['b']] } : ATimer).wf toyCharSpec C01_allExt = false := by
+  decide
+def C01_t5 : List Tok := [⟨.tilde, ['~'], 0⟩, ⟨.openBrace, ['{'], 1⟩, ⟨.int, ['5'], 2⟩, ⟨.closeBrace, ['}'], 3⟩]
+example : ((timerP (α := Rat) ⟨C01_t5, 0, ⟨0⟩, toyCharSpec, #[], none⟩).2.evs.toList.map
+    (fun e => match e with | .error d => d.kind | _ => "")) = ["timer-missing-unit"] := by decide
 
 end Cook
